@@ -214,8 +214,19 @@ def run(ctx):
         while p is not None and p is not holder.node:
             if isinstance(p, ast.BoolOp):
                 if isinstance(p.op, ast.Or):
+
+                    def always_falsy(v):
+                        """print(...) / list.append(...) return None; None / False; a conditional between such"""
+                        if isinstance(v, ast.Call) and (norm(v.func) == "print" or (isinstance(v.func, ast.Attribute) and v.func.attr in ("append", "extend", "add", "update", "write"))):
+                            return True
+                        if isinstance(v, ast.Constant) and v.value in (None, False):
+                            return True
+                        if isinstance(v, ast.IfExp):
+                            return always_falsy(v.body) and always_falsy(v.orelse)
+                        return False
+
                     for v in p.values[: p.values.index(child)]:
-                        if not (isinstance(v, ast.Call) and norm(v.func) in ("print", "global__all__.append")):
+                        if not always_falsy(v):
                             uncond = False
                 else:
                     uncond = False
